@@ -14,15 +14,24 @@ C04 / C01 for LIST VALUES IN META (`  TAGS::[a,b]`), DOCUMENT level — step (1)
                                   single-line and multi-line layouts with their NEWLINE / INDENT tokens).
   Positions of the envelope, header and body tokens are arbitrary (`Frame`, `LPos`); the field lines start at any text line `l`.
 
-Still missing for `C04_metalist_canonical_is_readable` / `_fixed_point` / `_survives` (NOT proved here, nothing is claimed):
-(2) the lexer half (`tokenize` of the canonical text gives this token list: `lex_indent` + `lex_ident` + `lex_assign` +
-`Nest.lex_nitem … 1` + `lex_nl` per field, `run_header` / `run_tree` around), (3) the bridge from the lexer's positions to
-`Frame` / `LPos`, (4) `emit` on the whole document.  The non-vacuity examples below check (2)–(4) by evaluation on one document.
+End to end, with an EMPTY BODY (`…_partial`: the body forest is the only thing missing):
+* `C04_metalist_canonical_is_readable_partial`   `parse` (strict) of the canonical text `===NAME===` / `META:` / `␣␣KEY::item` … /
+                                  `===END===` is exactly `{name, meta = metaListRead [] fields}` — lexer half
+                                  `MetaListDoc.tokenize_ldoc` (`lex_indent` + `lex_ident` + `lex_assign` + `Nest.lex_nitem … 1` +
+                                  `lex_nl` per field, header through `run_header`), bridge `metaListDoc_toks_bridge`, parser half above;
+* `C04_metalist_survives_partial`   every field is read back at its key with value and type;
+* `C04_metalist_emit_doc_partial`   `emit` of `{name, meta = metaListKv fields}` is that canonical text;
+* `C04_metalist_fixed_point_partial`   emit, read, emit again: the same bytes (distinct keys: with a repeated key the reader keeps
+                                  first position / last value, so `meta` as a list of entries is not reproduced — see the example).
+What is missing for the unrestricted names: the lexer half with a NON-EMPTY body (`run_tree` is in the `Run`/`AdvL` vocabulary,
+`Nest.lex_nitem` in `Lexes`/`At`; gluing needs `toksReps (tree tokens) = treeRepsRev` reversed) — the parser half already has the
+body.  The first group of examples below checks tokenize / parse / emit by evaluation on a document WITH a body line.
 -/
 import Octave.Props.C04metalist
 import Octave.Lemmas.MetaListDocParse
 import Octave.Lemmas.MetaListDocLex
 import Octave.Props.C02flat
+import Octave.Props.C01nested
 set_option linter.unusedVariables false
 namespace Octave.C04
 open Octave Lexer Emitter Parser
@@ -291,5 +300,30 @@ example : (match Parser.parse Env.ascii metaListDocExText with
 /-- … and the emitter gives that text back. -/
 example : emit Env.ascii (metaListDocRead "D".toList metaListExFields metaListDocExPos metaListDocExBody 0)
     = some metaListDocExText := by decide +kernel
+
+/-! ### non-vacuity of the end-to-end statements (empty body) -/
+
+example : metaListDocText "D".toList metaListExFields =
+    ("===D===\nMETA:\n  TAGS::[a,b]\n  RATIOS::[1.5,2.5]\n  MANY::[\n    1,\n    2.5,\n    \"x y\"\n  ]\n  N::-0.5\n" ++
+     "===END===\n").toList := by decide +kernel
+
+theorem metaListDocEx_ok : MetaListDocOK Env.ascii "D".toList metaListExFields :=
+  ⟨by decide, by decide, by decide, by decide +kernel, by decide +kernel, fun _ _ => rfl⟩
+
+theorem metaListDocEx_emit : ∀ f ∈ metaListExFields, f.v.EmitOK := by decide +kernel
+
+example : Parser.parse Env.ascii (metaListDocText "D".toList metaListExFields)
+    = .ok { name := "D".toList, metaKv := metaListRead [] metaListExFields, sections := [] } :=
+  C04_metalist_canonical_is_readable_partial Env.ascii "D".toList metaListExFields metaListDocEx_ok
+
+example : ∃ text d', emit Env.ascii { name := "D".toList, metaKv := metaListKv metaListExFields, sections := [] } = some text ∧
+    Parser.parse Env.ascii text = .ok d' ∧ d'.metaKv = metaListRead [] metaListExFields ∧ emit Env.ascii d' = some text :=
+  C04_metalist_fixed_point_partial Env.ascii "D".toList metaListExFields metaListDocEx_ok metaListDocEx_emit (by decide +kernel)
+
+/-- a repeated key is NOT a fixed point of `meta` as a list of entries: the reader keeps the first position and the last value
+(hence `Nodup` in `C04_metalist_fixed_point_partial`; `C04_metalist_canonical_is_readable_partial` needs no such hypothesis). -/
+example : metaListRead [] [⟨"A".toList, .num "1.5".toList⟩, ⟨"B".toList, .num "2.5".toList⟩, ⟨"A".toList, .num "3.5".toList⟩]
+    = [("A".toList, .val (.float "3.5".toList)), ("B".toList, .val (.float "2.5".toList))] := by
+  simp [metaListRead, dictSet, Nest.NItem.value, Nest.NLeaf.value, Nest.NLeaf.toP, FlatParse.Scalar.val]
 
 end Octave.C04
